@@ -65,6 +65,20 @@ def _case(draw):
         fault = {"kind": "param-source", "task": leaf["name"], "client": client, "ordinal": ordinal}
     elif kind in ("store-once", "store-persistent"):
         fault = {"kind": "store", "n": draw(st.sampled_from([1, 2, 3, 7, 20, 60])), "persistent": kind == "store-persistent"}
+        if draw(st.booleans()):
+            # a step longer than the 30 s post-processing interval: the store fails in a periodic tick while the race goes on
+            leaf["mode"] = "time"
+            leaf.pop("iterations", None)
+            leaf.pop("warmup_iterations", None)
+            leaf.pop("throughput", None)
+            leaf["warmup_time_period"] = None
+            leaf["time_period"] = draw(st.sampled_from([35, 70]))
+            for q in leaf["requests"]:
+                q["wire"][0][1] = draw(st.sampled_from([1.0, 2.5]))
+            if draw(st.booleans()):
+                # ... and race control's exit request is slow, so that the race may still complete after the failure was reported
+                case["test_mode"] = True
+                case["delay_overrides"] = {"ActorExitRequest": 7}
     elif kind == "prep-task":
         if not case["prep_tasks"]:
             case["prep_tasks"] = [0.5]
@@ -79,6 +93,13 @@ def _case(draw):
             # Ctrl+C right after a protocol message has been sent (e.g. while BenchmarkComplete is still in flight)
             msg = draw(st.sampled_from(["BenchmarkComplete", "BenchmarkComplete", "TaskFinished", "JoinPointReached", "StartBenchmark", "PreparationComplete", "UpdateSamples"]))
             fault = {"kind": "cancel", "on_send": [msg, draw(st.sampled_from([1, 1, 2, 4]))]}
+            if msg == "BenchmarkComplete" and draw(st.booleans()):
+                # the completion message is still in flight while race control cancels and then lets the actors exit
+                case["delay_overrides"] = {
+                    "BenchmarkComplete": draw(st.sampled_from([2, 4, 5, 6])),
+                    "BenchmarkCancelled": draw(st.sampled_from([0, 2])),
+                    "ActorExitRequest": draw(st.sampled_from([4, 6, 7])),
+                }
         else:
             fault = {"kind": "cancel", "at": draw(st.sampled_from(TIMES))}
     case["fault"] = fault
@@ -95,7 +116,7 @@ def run_case(case, obs):
     r = sim_race.run_full_race(case, fault)
     kind = case.get("fault_class", "none")
     wake = 0.5 if case.get("test_mode") else 5.0
-    max_delay = max(sim_race.DELAYS[d % len(sim_race.DELAYS)] for d in case["delays"])
+    max_delay = max(sim_race.DELAYS[d % len(sim_race.DELAYS)] for d in list(case["delays"]) + list((case.get("delay_overrides") or {}).values()))
     longest = max(sum(g + s for g, s in q["wire"]) + q["pre"] + q["post"] for _, leaf in sim_race.leaves(case["schedule"]) for q in leaf["requests"])
     results_stored = [t for t, has in r.stored_races if has]
     successes = [t for t, m, _ in r.inbox if type(m).__name__ == "Success"]
@@ -127,7 +148,9 @@ def run_case(case, obs):
         obs.check(first_reply != ["Success"], "success-before-failure", f"fault fired at {r.fired_at} but the first reply to race control was Success")
     # 2. in bounded (virtual) time
     if r.outcome in ("rally-error", "user-interrupted"):
-        bound = r.fired_at + 2 * (wake + 0.125) + 6 * max_delay + 2 * longest + 2.0
+        # a pre-empted handler holds its actor for the length of the window; events queued behind it are late by that much
+        pre = max([sim_race.PREEMPT[i % len(sim_race.PREEMPT)] for i in (case.get("preempt") or [0])])
+        bound = r.fired_at + 2 * (wake + 0.125) + 6 * max_delay + 2 * longest + 2.0 + 10 * pre
         obs.check(r.t_outcome <= bound, "notification-late", f"fault at {r.fired_at:.3f}, race control learnt at {r.t_outcome:.3f} (bound {bound:.3f})")
     # 3. no final results stored or printed
     if kind == "cancel":
